@@ -48,11 +48,6 @@ func extractFmt(repo string) (map[string]string, error) {
 		}
 		def(c+"Expr", "String", goast.LeanString(v))
 	}
-	fac, err := gcm.Func("aesGCMCipherFactory")
-	if err != nil {
-		return nil, err
-	}
-	def("aesGCMCipherFactorySkeleton", "List String", goast.LeanStringList(goast.Skeleton(fac)))
 	aead, err := goast.Parse(filepath.Join(app, "pkg/crypto/aead/aead.go"))
 	if err != nil {
 		return nil, err
@@ -139,13 +134,6 @@ func extractFmt(repo string) (map[string]string, error) {
 		}
 		def("sql"+strings.TrimPrefix(c, "default"), "String", goast.LeanString(s))
 	}
-	for _, fn := range []string{"SQLMetastore.Store", "parseEnvelope"} {
-		fd, err := sql.Func(fn)
-		if err != nil {
-			return nil, err
-		}
-		def("sql"+strings.ReplaceAll(fn, ".", "")+"Skeleton", "List String", goast.LeanStringList(goast.Skeleton(fd)))
-	}
 
 	// --- DynamoDB, both plugins --------------------------------------------------------------
 	d1, err := goast.Parse(filepath.Join(app, "plugins/aws-v1/persistence/dynamodb.go"))
@@ -187,18 +175,14 @@ func extractFmt(repo string) (map[string]string, error) {
 		f    *goast.File
 		fn   string
 		name string
-	}{{d1, "DynamoDBMetastore.Store", "ddb1Store"}, {d1, "parseResult", "ddb1ParseResult"},
+	}{{d1, "DynamoDBMetastore.Store", "ddb1Store"},
 		{d2, "Metastore.Store", "ddb2Store"}, {d2, "decodeItem", "ddb2DecodeItem"}} {
 		fd, err := x.f.Func(x.fn)
 		if err != nil {
 			return nil, err
 		}
-		if !strings.HasSuffix(x.name, "Store") { // the Store request shapes belong to C13's facts
-			def(x.name+"Skeleton", "List String", goast.LeanStringList(goast.Skeleton(fd)))
-		}
-		if x.name != "ddb1ParseResult" {
-			def(x.name+"Fields", "List String", goast.LeanStringList(fmtCompositeFacts(fd)))
-		}
+		// only the field mappings (data about the format); control flow of these functions belongs to C13
+		def(x.name+"Fields", "List String", goast.LeanStringList(fmtCompositeFacts(fd)))
 	}
 
 	// --- protobuf ---------------------------------------------------------------------------
